@@ -1,5 +1,6 @@
 import GoCrypt.Proofs.StreamDecode
 import GoCrypt.Gen.Consts
+import GoCrypt.Props.StreamIR
 
 /-!
 # C17 — the streaming base64le encoder/decoder agree with the one-shot functions
@@ -228,4 +229,28 @@ by well-founded recursion and does not reduce in the kernel). -/
 #print axioms dec_fragmentation_drains
 #print axioms dec_err_sticky
 
+-- the state machines ARE the current code (Props/SIREncoder.lean, SIRDecoder.lean): the bodies of (*encoder).Write/Close, NewEncoder, (*decoder).Read,
+-- (*newlineFilteringReader).Read and NewDecoder regenerated from hash/base64le/base64le.go on every run (struct objects behind pointers, the scripted io.Writer/io.Reader as
+-- external objects, Encode/Decode as calls into the regenerated buffer-IR programs) and interpreted = encWrite/encClose/decRead/filteredRead of Model/Stream.lean, for every state, chunk and script
+-- (decoder: for every script that eventually reports an error — `Live`; a reader answering (0, nil) forever makes Go's refill loop spin, the IR is `stuck` there)
+#print axioms GoCrypt.SIR.extWriter_is_wWrite
+#print axioms GoCrypt.SIR.library_spec
+#print axioms GoCrypt.SIR.encoderWrite_ir_eq_model
+#print axioms GoCrypt.SIR.encWrite_state_invariant
+#print axioms GoCrypt.SIR.encoderClose_ir_eq_model
+#print axioms GoCrypt.SIR.newEncoder_ir_eq_model
+#print axioms GoCrypt.SIR.newEncoder_ir_rep
+#print axioms GoCrypt.SIR.extRead_eq_rawRead
+#print axioms GoCrypt.SIR.ext_pending_eq_model
+#print axioms GoCrypt.SIR.nfrRead_ir_eq_model
+#print axioms GoCrypt.SIR.nfrRead_buffer
+#print axioms GoCrypt.SIR.filteredRead_enough_fuel
+#print axioms GoCrypt.SIR.newDecoder_ir_eq_model
+#print axioms GoCrypt.SIR.newDecoder_represents
+#print axioms GoCrypt.SIR.decoderRead_ir_eq_model
+#print axioms GoCrypt.SIR.decoderRead_leftover
+#print axioms GoCrypt.SIR.decoderRead_sticky
+#print axioms GoCrypt.SIR.decRead_keeps_live
+#print axioms GoCrypt.SIR.decode_independent_of_old_dst
+#print axioms GoCrypt.SIR.decode_never_panics
 end GoCrypt.C17
